@@ -34,10 +34,15 @@ type Obligation struct {
 	Desc    string
 	Props   []string
 	Splits  []*Term // case split: one query per element (their disjunction is valid)
+	Parts   []oblPart // path split: the obligation is the conjunction of (Cond => Goal) over the parts
 	Bounded bool // path went through a bounded (assumed-unwinding) loop
 	Cut     bool // path went through a loop cut or an abstracted callee
 	// filled by the solver stage
 	Result Result
+}
+
+type oblPart struct {
+	Cond, Goal *Term
 }
 
 type loopInfo struct {
@@ -505,11 +510,9 @@ func (f *Frame) run(args []Val, free []Val, mem *Mem, reach *Term, st0 pathFlags
 		} else {
 			res = TupleV{vals}
 		}
-		if f.top {
-			f.checkEnsures(&execState{reach: tb.Or(conds...), env: map[ssa.Value]Val{}, mem: outMem, st: flags}, vals, f.retPos)
-		}
-	} else if f.top {
-		f.checkEnsures(&execState{reach: tb.Or(conds...), env: map[ssa.Value]Val{}, mem: outMem, st: flags}, nil, f.retPos)
+	}
+	if f.top {
+		f.checkEnsuresPaths(flags)
 	}
 	return res, outMem, flags, tb.Or(conds...)
 }
@@ -585,6 +588,19 @@ func (e *Engine) position(p token.Pos) token.Position {
 func (f *Frame) cutLoop(n *xnode, li *loopInfo, st *execState) {
 	e := f.e
 	tb := e.tb
+	// 0. implicit invariant of go/ssa's range-over-slice lowering: the index
+	// phi starts at -1 and only ever increments below the length. It is
+	// checked like a declared invariant (entry here, preservation at the back edge).
+	for _, ins := range n.blk.Instrs {
+		phi, ok := ins.(*ssa.Phi)
+		if !ok {
+			break
+		}
+		if phi.Comment == "rangeindex" {
+			v := st.env[phi].(Scalar).T
+			f.oblige(st, "invariant", fmt.Sprintf("L%d.rangeindex.entry", li.ordinal), st.reach, e.tb.Sle(e.tb.ConstI(-1, v.sort.W), v), li.header.Instrs[0].Pos(), "range index starts at -1")
+		}
+	}
 	// 1. invariant on entry
 	if li.spec != nil {
 		sc := f.scopeAt(st, nil)
@@ -614,6 +630,12 @@ func (f *Frame) cutLoop(n *xnode, li *loopInfo, st *execState) {
 	}
 	for _, t := range inv {
 		e.assume(tb.Implies(st.reach, t))
+	}
+	for _, phi := range phis {
+		if phi.Comment == "rangeindex" {
+			v := st.env[phi].(Scalar).T
+			e.assume(tb.Implies(st.reach, tb.And(tb.Sle(tb.ConstI(-1, v.sort.W), v), tb.Slt(v, tb.ConstU(1<<62, v.sort.W)))))
+		}
 	}
 	st.mem = f.havocLoopMem(li, st)
 	st.st.cut = true
@@ -670,6 +692,21 @@ func (f *Frame) havocLoopMem(li *loopInfo, st *execState) *Mem {
 
 func (f *Frame) backEdge(n *xnode, li *loopInfo, st *execState, cond *Term) {
 	e := f.e
+	{
+		idx := predIndex(li.header, n.blk)
+		for _, ins := range li.header.Instrs {
+			phi, ok := ins.(*ssa.Phi)
+			if !ok {
+				break
+			}
+			if phi.Comment == "rangeindex" {
+				v := f.operand(st.env, phi.Edges[idx]).(Scalar).T
+				st2 := *st
+				f.oblige(&st2, "invariant", fmt.Sprintf("L%d.rangeindex.preserved", li.ordinal), cond,
+					e.tb.And(e.tb.Sle(e.tb.ConstI(-1, v.sort.W), v), e.tb.Slt(v, e.tb.ConstU(1<<62, v.sort.W))), n.blk.Instrs[len(n.blk.Instrs)-1].Pos(), "range index stays in [-1, 2^62)")
+			}
+		}
+	}
 	if li.spec == nil {
 		return
 	}
@@ -1044,7 +1081,7 @@ func (e *Engine) globalAddr(g *ssa.Global) *Term {
 	}
 	t := e.tb.Var(name, BV(64))
 	e.assume(e.tb.Ult(e.tb.ConstU(4096, 64), t))
-	e.assume(e.tb.Ult(t, e.tb.ConstU(addrLimit-(1<<32), 64)))
+	e.assume(e.tb.Ult(t, e.tb.ConstU(preLimit-(1<<32), 64)))
 	e.globals[t] = g
 	e.importGlobal(g, t)
 	return t
@@ -1097,7 +1134,7 @@ func (e *Engine) stringConst(s string) Val {
 	}
 	e.rom[p] = bs
 	e.assume(tb.Ult(tb.ConstU(4096, 64), p))
-	e.assume(tb.Ult(p, tb.ConstU(addrLimit-(1<<32), 64)))
+	e.assume(tb.Ult(p, tb.ConstU(preLimit-(1<<32), 64)))
 	return StringV{p, tb.ConstU(uint64(len(s)), 64)}
 }
 
